@@ -80,6 +80,9 @@ def ulp(v):
 def judge(res, lo, hi, x, method, r, rep, dtype_ulp=None):
     """Exact oracle for one application."""
     F = Fraction
+    if r != r or r in (float("inf"), float("-inf")):
+        res.add_violation(ID, f"C17/outside-box:{method}:not-a-number", f"{method}({x!r}) on ({lo!r}, {hi!r}) = {r!r} is not a point of the box", {"lo": lo, "hi": hi, "x": x, "r": repr(r)}, rep)
+        return
     fl, fh, fx, fr = F(lo), F(hi), F(x), F(r)
     R = fh - fl
     sig = None
